@@ -5,6 +5,7 @@
 //!   mbn-dst --worker <property> <tier> <seed> <start> <step> <end>   (internal)
 
 mod common;
+mod distsim;
 mod drawspace;
 mod fwsim;
 mod mach;
@@ -33,6 +34,7 @@ fn engine_for(prop: &str) -> Option<Box<dyn Engine>> {
         "C10" => Box::new(FwEngine(props_more::C10)),
         "C06" => Box::new(drawspace::C06),
         "C05" => Box::new(FwEngine(props_ref::C05)),
+        "C13" => Box::new(distsim::C13),
         "C14" => Box::new(props_sim::SimEngine(props_sim::C14)),
         "C15" => Box::new(props_sim::SimEngine(props_sim::C15)),
         "C16" => Box::new(props_sim::SimEngine(props_simtimers::C16)),
